@@ -11,7 +11,7 @@ def needs_refill(sizes):
     return [k for k, s in enumerate(sizes) if s < 2]
 
 
-def check_repopulation(labels_in, labels_out, K, m, spreads, raised):
+def check_repopulation(labels_in, labels_out, K, m, spreads, raised, spread_rtol=0.0):
     """Return list of discrepancy strings (empty = conforms to the model).
 
     raised: None, or the exception instance the call raised.
@@ -84,7 +84,7 @@ def check_repopulation(labels_in, labels_out, K, m, spreads, raised):
     donors = [k for k in range(K) if caps[k] > 0]
     for a in donors:
         for b in donors:
-            if spreads[a] > spreads[b] and t[b] > 0 and t[a] < caps[a]:
+            if spreads[a] > spreads[b] * (1.0 + spread_rtol) and t[b] > 0 and t[a] < caps[a]:
                 issues.append("donor order: cluster %d (spread %.6g) used while cluster %d (spread %.6g) still had capacity"
                               % (b, spreads[b], a, spreads[a]))
     return issues
